@@ -198,7 +198,15 @@ def call_contract(self, fc, recv, args, kwargs, line, label):
     E = _eng()
     self.callno += 1
     tag = "%s/call@L%d:%s" % (self.fc.qualname, line, label)
+    if fc.trusted and not getattr(fc, "no_interference", False):
+        self.apply_interference(line, "before " + label)       # a call into the environment is a scheduling point
     env = self.env
+    hooks = getattr(self.fc, "call_hooks", {})
+    for kind_, text_ in hooks.get(("before", label), []):
+        if kind_ == "ghost":
+            self.exec_ghost(text_)
+        else:
+            self.assume_use(text_, env.spec_view(old=self.entry))
     bound = bind_args(self, fc, args, kwargs, env)
     loc = dict(bound)
     selfname = "self"
@@ -225,6 +233,8 @@ def call_contract(self, fc, recv, args, kwargs, line, label):
             c = fresh("may_raise_" + exc, BOOL)
         else:
             c = self.ev_spec(when, pre_env).t
+            if not iff:
+                c = z3.And(c, fresh("may_raise_" + exc, BOOL))      # `when` is only necessary: the callee MAY raise then
         if self.decide(c):
             # state: unchanged unless the clause says otherwise (modifies still applies when ensures are given)
             if ens:
@@ -257,6 +267,13 @@ def call_contract(self, fc, recv, args, kwargs, line, label):
         if e.strip() == "False":
             self.expect_dead = True        # the callee never returns normally (it always raises): the rest of this path is dead by design
         self.assume(self.ev_spec(e, post_env))
+    if getattr(fc, "releases_lock", False):
+        self.apply_interference(line, "after " + label)         # after a release other processes may run
+    for kind_, text_ in hooks.get(("after", label), []):
+        if kind_ == "ghost":
+            self.exec_ghost(text_)
+        else:
+            self.assume_use(text_, self.env.spec_view(old=self.entry))
     return res
 
 
@@ -509,6 +526,9 @@ def seq_method(self, recv, f, n, env):
         return r
     if m == "extend":
         other = self.as_iter_seq(args[0], line)
+        if other.s != recv.s:
+            other = ops.coerce(other, recv.s)
+            self.assume()
         v, ax = ops.seq_concat(recv, other)
         self.assume(*ax)
         self.assign(f.value, v)
@@ -716,6 +736,32 @@ def spec_call(self, n, env):
         v = self.ev(A[0], env)
         alt = INT if name == "as_int" else STR
         return V(union_get(v.t, v.s, alt), alt)
+    if name in ("lemma_inst", "unfold"):
+        which = A[0].value
+        vals = [self.ev(a, env) for a in A[1:]]
+        if name == "unfold":
+            if which not in self.unit.rec_defs:
+                raise E.StaleContract("unfold: no recursive definition %s" % which)
+            params, expr = self.unit.rec_defs[which]
+            binders = {k_: v_ for k_, v_ in env.binders.items() if k_ not in params}
+            sub = E.Env(dict(zip(params, vals)), env.heap, env.alloc, True, None, None, None, binders)
+            return self.ev_spec(expr, sub)
+        lem = next((l_ for l_ in self.unit.lemmas if l_["name"] == which), None)
+        if lem is None:
+            raise E.StaleContract("lemma_inst: no lemma %s" % which)
+        if self.fc.qualname.startswith("lemma:"):
+            order = [l_["name"] for l_ in self.unit.lemmas]
+            if order.index(which) >= order.index(self.fc.qualname[len("lemma:"):]):
+                raise E.StaleContract("lemma %s may only use lemmas declared before it (no circular proofs)" % self.fc.qualname)
+        names = list(lem["params"])
+        if len(vals) != len(names):
+            raise E.StaleContract("lemma_inst(%s): expected %d arguments" % (which, len(names)))
+        vals = [ops.coerce(v_, lem["params"][p_]) for p_, v_ in zip(names, vals)]
+        binders = {k_: v_ for k_, v_ in env.binders.items() if k_ not in names}
+        sub = E.Env(dict(zip(names, vals)), env.heap, env.alloc, True, None, None, None, binders)
+        req = [self.ev_spec(r_, sub).t for r_ in lem["requires"]]
+        ens = [self.ev_spec(e_, sub).t for e_ in lem["ensures"]]
+        return V(z3.Implies(z3.And(*req) if req else z3.BoolVal(True), z3.And(*ens)), BOOL)
     if name == "is_none":
         return V(ops.is_none(self.ev(A[0], env)), BOOL)
     if name == "some":          # value inside an Opt
